@@ -18,8 +18,11 @@ pub fn run(ctx: &mut Ctx) {
         let backend = if file { Backend::File } else { Backend::Memory };
         let (mut store, path) = new_store(backend, &scratch);
         let docs = [namespace(1), namespace(2)];
-        for d in &docs {
-            store.import_namespace(Capability::Write(d.clone())).unwrap();
+        // each document starts read-only or writable; capabilities are imported again later
+        let mut writable = [rng.chance(1, 2), rng.chance(1, 2)];
+        for (i, d) in docs.iter().enumerate() {
+            let cap = if writable[i] { Capability::Write(d.clone()) } else { Capability::Read(d.id()) };
+            store.import_namespace(cap).unwrap();
         }
         let unknown = namespace(3).id();
         let n_peers = rng.range(1, 8);
@@ -41,7 +44,54 @@ pub fn run(ctx: &mut Ctx) {
                 }
                 continue;
             }
-            if file && rng.chance(1, 10) {
+            if rng.chance(1, 8) {
+                // store operations that are not about peers must leave every list alone
+                let d = rng.below(2);
+                match rng.below(6) {
+                    0 | 1 => {
+                        let write = rng.chance(1, 2);
+                        let cap = if write { Capability::Write(docs[d].clone()) } else { Capability::Read(docs[d].id()) };
+                        let r = store.import_namespace(cap);
+                        trace.push(format!("import {} capability for doc{d} (held: {}) -> {}", if write { "write" } else { "read" }, if writable[d] { "write" } else { "read" }, r.is_ok()));
+                        if write && r.is_ok() {
+                            if !writable[d] {
+                                ctx.count("capability_upgrades_with_peers_registered", (!model[d].is_empty()) as u64);
+                            }
+                            writable[d] = true;
+                        }
+                    }
+                    2 => {
+                        let _ = store.set_download_policy(&docs[d].id(), iroh_docs::store::DownloadPolicy::default());
+                        trace.push(format!("set download policy of doc{d}"));
+                    }
+                    3 => {
+                        let _ = store.list_namespaces().map(|i| i.count());
+                        trace.push("list documents".to_string());
+                    }
+                    4 => {
+                        let r = store.open_replica(&docs[d].id()).map(|_| ());
+                        store.close_replica(docs[d].id());
+                        trace.push(format!("open and close doc{d} -> {}", r.is_ok()));
+                    }
+                    _ => {
+                        // removal forgets the list; the document can be imported again and starts empty
+                        let r = store.remove_replica(&docs[d].id());
+                        trace.push(format!("remove doc{d} -> {}", r.is_ok()));
+                        if r.is_ok() {
+                            model[d].clear();
+                            if store.register_useful_peer(docs[d].id(), peers[0]).is_ok() {
+                                ctx.violation(case, "registered-peer-for-removed-document", json!({"trace": trace}));
+                                return;
+                            }
+                            writable[d] = rng.chance(1, 2);
+                            let cap = if writable[d] { Capability::Write(docs[d].clone()) } else { Capability::Read(docs[d].id()) };
+                            store.import_namespace(cap).unwrap();
+                            trace.push(format!("import doc{d} again ({})", if writable[d] { "write" } else { "read" }));
+                        }
+                    }
+                }
+                ctx.count("other_store_operations", 1);
+            } else if file && rng.chance(1, 10) {
                 store.flush().unwrap();
                 drop(store);
                 store = Store::persistent(path.as_ref().unwrap()).expect("reopen");
